@@ -21,9 +21,10 @@ def main():
         if a.prop == 'selftest':
             from . import selftest
             return selftest.main()
-        mod = importlib.import_module('harness.' + a.prop.lower())
         if a.replay:
-            return mod.replay(a.replay)
+            from . import replay
+            return replay.main(a.prop, a.replay)
+        mod = importlib.import_module('harness.' + a.prop.lower())
         return mod.main(a.tier)
     except core.MachineryError as e:
         print('MACHINERY-FAILURE %s: %s' % (a.prop, e))
